@@ -214,7 +214,7 @@ theorem mustQ_loopRid {pc : PC} {r : Rid} (h : pc.mustQ = some r) : pc.loopRid =
 /-- Rewrite the program counter of the acting thread after the step. -/
 macro "nrel_pc_simp" h:ident : tactic => `(tactic| (
   simp only [setPc_pc, upd_same, afterDeadline_pc, afterNotify_pc, childReturn_pc,
-    childWakeNext_pc, freeLoopStart_pc, enterChild_pc, leave_pc, addUser_pc, markCalled_pc,
+    childWakeNext_pc, childScanStart_pc, freeLoopStart_pc, enterChild_pc, leave_pc, addUser_pc, markCalled_pc,
     markFreeing_pc, setAfter_pc, pushObs_pc, publish_pc, delUser_pc] at $h:ident))
 
 /-- The record of a wait call is created by `wait.c/0` and stays the record of the call. -/
